@@ -337,6 +337,7 @@ func Launch() {
 		"response context/status), then concurrent callers sharing the proxies; once per filter configuration (legacy single, middleware chains, pre/post) with recording pass-through filters; " +
 		"plus servers with a worker pool (maxroutine 1 and 2) where scripted slow calls hold every worker while one-way and two-way calls with their own client timeouts (shorter or longer than the wait) " +
 		"queue up; a large phase where 8-32 concurrent callers share one connection of a fixed interface (byte vectors, strings, nested vectors, struct) with request/response payloads of 63 KiB - 1 MiB that are functions of a per-call tag (recorded as digests); " +
+		"long-run processes (client objqueuemax 7-100, own async-invoke-timeout) with 350-70000 strictly sequential calls on one proxy mixing one-way, two-way, erroring and timed-out calls (no call may be refused, every one-way call delivered once); " +
 		"every byte between proxy and server passes a frame-parsing relay whose record of request and response frames is judged at the end (no reply to a one-way request, at most one reply per request, no unsolicited reply); " +
 		"non-trivial = distinct (filters, function, mode, seed)"
 	if res.HarnessError != "" {
